@@ -240,7 +240,8 @@ func (e *env) runForced(progs []prog, sched []int, debug bool) result {
 			case "summon.woke", "summon.load", "summon.body", "summon.store", "summon.exit", "summon.broadcast",
 				"swamp.mapdelete", "swamp.destroy.drained", "summon.slotdelete",
 				"swamp.idle.read", "swamp.idle.close", "swamp.autodestroy", "summon.predec", "summon.predelete",
-				"swamp.close.gate", "swamp.destroy.gate":
+				"swamp.close.gate", "swamp.destroy.gate",
+				"swamp.destroy.cancelled", "swamp.flush.begin", "swamp.flush.wrote", "chronicler.write.begin", "gateway.set.summoned":
 				continue
 			default:
 				res.unknownEv = append(res.unknownEv, ev.Site)
